@@ -113,6 +113,17 @@ def run(ctx, model=None):
             p = dict(base, seed=big, fd=fd)
             check_main(ctx, p, model, seen)
             check_main(ctx, dict(p, seed=big - 1), model, seen)
+    # sequences in ONE directory: a file whose name is a prefix/extension of another one must still be written
+    for (first, second) in (({"lt": 30}, {"lt": 3}), ({"fd": True}, {"fd": False}), ({"seed": 31}, {"seed": 3}), ({"w": 12, "l": 1}, {"w": 1, "l": 1})):
+        p1, p2 = dict(base, **first), dict(base, **second)
+        r1 = boards.run_generator(argv_of(p1))
+        r2 = boards.run_generator(argv_of(p2), pre_files=r1["files"])
+        fresh = boards.run_generator(argv_of(p2))
+        ctx.case({"first": p1, "second": p2}, True)
+        new_files = {k: v for k, v in r2["files"].items() if k not in r1["files"]}
+        if r2["outcome"] != "ok" or new_files != fresh["files"]:
+            ctx.violation("own-file-after-earlier-run", {"first": p1, "second": p2},
+                          {"outcome": r2["outcome"], "files_after_second_run": sorted(r2["files"]), "expected_new": sorted(fresh["files"])})
     # 3. manual entry point
     sg = repo("stochastic_game_from_roborta_board")
     for _ in range(5 if ctx.quick() else 60):
